@@ -637,9 +637,9 @@ theorem left_right_split_parse (env : Env) (s : List Char) (n : Int) (h0 : 0 ≤
   simp only [Bool.false_eq_true, if_false, parse_split, splitExpr]
   have hs' : env.vars ['s'] = some (.str s) := hs
   have hn' : env.vars ['n'] = some (iv n) := hn
-  have cL := fun log => callBuiltin env ['L', 'E', 'F', 'T'] LEFT [.str s, iv n] _ log (hc _) (by decide) (by rfl) e1
-  have cN := fun log => callBuiltin env ['L', 'E', 'N'] LEN [.str s] _ log (hc _) (by decide) (by rfl) e2
-  have cR := fun log => callBuiltin env ['R', 'I', 'G', 'H', 'T'] RIGHT [.str s, _] _ log (hc _) (by decide) (by rfl) e4
+  have cL := fun log => callBuiltin env ['L', 'E', 'F', 'T'] LEFT [.str s, iv n] _ log (hc _) (by decide) (by rfl) e1 (by rfl)
+  have cN := fun log => callBuiltin env ['L', 'E', 'N'] LEN [.str s] _ log (hc _) (by decide) (by rfl) e2 (by rfl)
+  have cR := fun log => callBuiltin env ['R', 'I', 'G', 'H', 'T'] RIGHT [.str s, _] _ log (hc _) (by decide) (by rfl) e4 (by rfl)
   simp [evalExpr, evalList, callVariable, hs', hn', seqValues, cL, cN, cR, binOfOp, e3, e5, finish]
 
 /-- an environment satisfying the hypotheses of `left_right_split_parse` -/
@@ -669,9 +669,9 @@ theorem len_concat_parse (env : Env) (a b : List Char)
       .ok (.bin .add (.call ['L', 'E', 'N'] .flat [.var [['a']]] []) (.call ['L', 'E', 'N'] .flat [.var [['b']]] [])) := by rfl
   have n1 : ("LEN(a&b)".toList).isEmpty = false := by rfl
   have n2 : ("LEN(a)+LEN(b)".toList).isEmpty = false := by rfl
-  have cA := fun log => callBuiltin env ['L', 'E', 'N'] LEN [.str a] _ log (hc _) (by decide) (by rfl) e1
-  have cB := fun log => callBuiltin env ['L', 'E', 'N'] LEN [.str b] _ log (hc _) (by decide) (by rfl) e2
-  have cAB := fun log => callBuiltin env ['L', 'E', 'N'] LEN [.str (a ++ b)] _ log (hc _) (by decide) (by rfl) e4
+  have cA := fun log => callBuiltin env ['L', 'E', 'N'] LEN [.str a] _ log (hc _) (by decide) (by rfl) e1 (by rfl)
+  have cB := fun log => callBuiltin env ['L', 'E', 'N'] LEN [.str b] _ log (hc _) (by decide) (by rfl) e2 (by rfl)
+  have cAB := fun log => callBuiltin env ['L', 'E', 'N'] LEN [.str (a ++ b)] _ log (hc _) (by decide) (by rfl) e4 (by rfl)
   constructor
   · rw [parseTop, n1]
     simp only [Bool.false_eq_true, if_false, p1]
